@@ -5,7 +5,7 @@
     [trace_ok] on the IMPLEMENTATION's calls, (iii) the finding guards that fire
     on the history. *)
 From HV Require Export Base.Prelude C18.Model C18.ModelBlob C18.ModelK8s C18.Spec C18.Proofs C18.ProofsBlob C18.ProofsK8s
-  C18.Accept C18.AcceptProviders.
+  C18.Accept C18.AcceptProviders C18.AcceptFs C18.AcceptK8s C18.Quiesce.
 
 (** the processor oracle of a case: contents it rejects, sources whose deletion it refuses *)
 Definition mk_oracle (rej : list cid) (undel : list nat) : oracle :=
@@ -261,7 +261,6 @@ Record k8r_case := {
   kr_skip : nat;                              (* leading events (initial list) without a snapshot of their own *)
   kr_active : list (list (option cid)) }.     (* what the repository holds per UID after each further event *)
 
-Definition k8r_uids := seq 0 24.
 
 (** after the events [h]: what the ideal repository holds according to the model's calls ... *)
 Definition k8s_model_active (O : oracle) (f7 f8 : bool) (nn : nat) (h : list k8s_event) : list (option cid) :=
@@ -272,9 +271,6 @@ Definition k8s_spec_active (acc : cid -> bool) (nn : nat) (h : list k8s_event) :
   let atoms := k8s_atoms_from nn ks_empty h in
   let tr := mk_trace (k8s_atom_views ks_empty atoms) (map (fun _ => []) atoms) in
   map (fun u => latest_valid acc (seen_of tr (Sid u))) k8r_uids.
-
-Definition prefixes_from {A} (k : nat) (h : list A) : list (list A) :=
-  map (fun i => firstn i h) (seq (S k) (length h - k)).
 
 Definition check_k8sr (f7 f8 : bool) (c : k8r_case) : verdict :=
   let kc := kr_case c in
@@ -297,6 +293,52 @@ Definition ko n u cls gen c := {| k_name := n; k_uid := u; k_cls := cls; k_gen :
 Definition wA := KWatch WAdded. Definition wM := KWatch WModified. Definition wD := KWatch WDeleted.
 Definition wR := KRelist.
 Definition k8c nn rej undel h o := {| kc_nn := nn; kc_rej := rej; kc_undel := undel; kc_hist := h; kc_obs := o |}.
+
+(** ** event-driven providers against a processor whose answer depends on what is loaded (competing rule sets) *)
+
+(** *** Kubernetes *)
+Record k8c_case := { kq_case : k8s_case; kq_skip : nat; kq_repo : list (list (option cid)) }.
+
+Definition check_k8sc (c : k8c_case) : verdict :=
+  let kc := kq_case c in
+  let nn := kc_nn kc in
+  let ok := ok_rej (kc_rej kc) in
+  let lo := list_eqb (option_eqb Nat.eqb) in
+  let pre := prefixes_from (kq_skip c) (kc_hist kc) in
+  let model_calls := map fst (k8s_dyn_steps ok pclash k8c_srcs nn ks_empty a_empty (kc_hist kc)) in
+  let model_repo := map (k8s_dyn_repo_after ok nn) pre in
+  let wf := k8s_wf nn (kc_hist kc) in
+  let quiet := fun repos => forallb (fun hr => quiescent ok k8c_srcs (k8s_seen_after nn (fst hr)) (repo_fun k8c_srcs (snd hr)))
+                                    (combine pre repos) in
+  {| v_corr := list_eqb (list_eqb pcall_eqb) model_calls (map kstep_calls (kc_obs kc)) &&
+               negb (existsb kstep_panic (kc_obs kc)) &&
+               (negb wf || list_eqb lo model_repo (kq_repo c));
+     v_prop := negb wf || (negb (existsb kstep_panic (kc_obs kc)) && Nat.eqb (length (kq_repo c)) (length pre) && quiet (kq_repo c));
+     (* C18-F10: a RuleSet that could be applied now is not loaded (it was refused while another source held its
+        path, the other source is gone or changed, and the provider does not offer it again) *)
+     v_guards := guards [(10%Z, k8s_guard_F10 ok nn (kq_skip c) (kc_hist kc))] |}.
+
+Definition k8q c k a := {| kq_case := c; kq_skip := k; kq_repo := a |}.
+
+(** *** file system *)
+Record fsc_case := { fq_n : nat; fq_rej : list cid; fq_hist : list fs_event; fq_obs : list rstep }.
+
+Definition check_fsc (c : fsc_case) : verdict :=
+  let srcs := map Sid (seq 0 (fq_n c)) in
+  let ok := ok_rej (fq_rej c) in
+  let model := fs_dyn_steps ok pclash srcs world0 st_empty a_empty (fq_hist c) in
+  let lo := list_eqb (option_eqb Nat.eqb) in
+  let pre := prefixes_from 0 (fq_hist c) in
+  let seen_after := fun h => seen_of (mk_trace (fs_views (fun _ => true) h) (map (fun _ => []) h)) in
+  let quiet := fun repos => forallb (fun hr => quiescent ok srcs (seen_after (fst hr)) (repo_fun srcs (snd hr))) (combine pre repos) in
+  {| v_corr := list_eqb (list_eqb pcall_eqb) (map fst model) (map r_calls (fq_obs c)) &&
+               list_eqb lo (map snd model) (map r_repo (fq_obs c));
+     v_prop := Nat.eqb (length (fq_obs c)) (length (fq_hist c)) && quiet (map r_repo (fq_obs c));
+     (* C18-F11: a rule file that could be applied now is not loaded (refused while another file held its path; that
+        file is gone or changed; there has been no event for the refused file since) *)
+     v_guards := guards [(11%Z, fs_guard_F11 ok (fq_n c) (fq_hist c))] |}.
+
+Definition fcc n rej h o := {| fq_n := n; fq_rej := rej; fq_hist := h; fq_obs := o |}.
 
 (** ** short constructors for the generated case files *)
 Definition CA := CAbsent. Definition CE := CEmpty. Definition CI := CInvalid. Definition CV := CValid.
